@@ -67,7 +67,7 @@ def write_segy(path, data, ilines, xlines, samples, fmt=5, headers=None, ext_tex
     return path
 
 
-def write_segy_traces(path, traces, samples, headers, fmt=5):
+def write_segy_traces(path, traces, samples, headers, fmt=5, text=None, bin_fields=None):
     """Unstructured SEG-Y (irregular 3-D or 2-D): traces [n, nz]; headers: list of dicts per trace."""
     spec = segyio.spec()
     spec.format = fmt
@@ -75,6 +75,8 @@ def write_segy_traces(path, traces, samples, headers, fmt=5):
     spec.tracecount = len(traces)
     dt_us = int(round((samples[1] - samples[0]) * 1000))
     with segyio.create(path, spec) as f:
+        if text is not None:
+            f.text[0] = text
         for t in range(len(traces)):
             h = {segyio.TraceField.TRACE_SAMPLE_COUNT: len(samples),
                  segyio.TraceField.TRACE_SAMPLE_INTERVAL: dt_us,
@@ -85,6 +87,8 @@ def write_segy_traces(path, traces, samples, headers, fmt=5):
             f.trace[t] = traces[t]
         f.bin.update({segyio.BinField.Interval: dt_us, segyio.BinField.Samples: len(samples),
                       segyio.BinField.Format: fmt})
+        if bin_fields:
+            f.bin.update(bin_fields)
     return path
 
 
